@@ -480,6 +480,18 @@ int prop_encode(Run& run) {
         auto fail = [&](const std::string& key, const std::string& what, const std::string& e, const std::string& ob) {
             return run.violation("C13:" + key, witness_json(c, what + "; emitted text: " + text.substr(0, 2500), "", e, ob));
         };
+        // the overload without a policy name emits the same data, decoded into YOMM2_DEFAULT_POLICY
+        if (cs % 16 == 0) {
+            std::string dflt = w->encode_for_default_policy(*u.compiler);
+            std::string named = text;
+            std::string call = std::string("decode_dispatch_data<") + w->name() + ">";
+            size_t at = named.find(call);
+            if (at != std::string::npos)
+                named.replace(at, call.size(), "decode_dispatch_data<YOMM2_DEFAULT_POLICY>");
+            run.evaluations++;
+            if (named != dflt && run.violation("C13:default-policy-overload-emits-different-text", witness_json(c, "encode_dispatch_data(compiler, os) vs encode_dispatch_data(compiler, policy, os)", "", named.substr(named.size() > 300 ? named.size() - 300 : 0), dflt.substr(dflt.size() > 300 ? dflt.size() - 300 : 0))))
+                return 1;
+        }
         EncodedData d;
         std::string why;
         run.evaluations++;
